@@ -1,1 +1,12 @@
-echo setup
+#!/bin/sh
+# Offline build of the framework + warm-up of the Go build cache (files on disk only).
+set -e
+cd "$(dirname "$0")"
+export GOFLAGS=-mod=mod GOPROXY=off
+unset GOTOOLCHAIN GOSUMDB
+mkdir -p build evidence replay
+(cd vinstr && go build -o ../build/vinstr .)
+# warm the build cache for the packages under test (plain and -race); failures here are not fatal
+(cd /repo && go test -count=1 -vet=off -run '^$' ./internal/... ./controller/ ./speaker/ >/dev/null 2>&1 || true)
+(cd /repo && CGO_ENABLED=1 go test -race -count=1 -vet=off -run '^$' ./internal/layer2/ ./internal/bgp/native/ ./controller/ ./speaker/ >/dev/null 2>&1 || true)
+echo setup done
